@@ -23,6 +23,7 @@ ENGINES = {
             1414: dict(cls="oracle", props=["C14"], what="after quiescence an application lists an allocation its node does not list"),
             1415: dict(cls="oracle", props=["C14"], what="after quiescence root allocated differs from the sum of node allocated totals"),
             1416: dict(cls="oracle", props=["C14"], what="after quiescence ledgers are not back to zero with no application left"),
+            1450: dict(cls="known", props=["C14"], finding="C14-alloc-leak-app-removed", what="known: allocation booked on a node while its application is being removed stays on the node (node id of the allocation still unset)"),
             1490: dict(cls="corr", props=["C14"], what="the harness' cycle search and the Coq acyclicity check disagree"),
         },
     ),
